@@ -65,7 +65,19 @@ class C01(Config):
         "transaction expiry heights stay unknown (NULL): compact-block scanning never learns them; the model keeps the "
         "column and the full tx_unexpired_condition",
     ]
-    partial_clauses = []
+    partial_clauses = [
+        "spend completeness (no spend of a known note in a scanned block is missed: nullifier map / tracking floor / "
+        "prune argument) is NOT proved; it is evaluated on every implementation dump by prop_case (chk_spent, chk_bal "
+        "against the generator's ground truth) and the model is tied to the code by run_case",
+        "order independence and idempotence follow from spend completeness and are likewise only checked (chk_linear: "
+        "equality with a fresh linear-scan wallet whenever the history ends fully scanned)",
+        "theorems quantify over one fixed chain; histories with forks (rewind + different continuation, re-mined "
+        "transactions) are covered by the correspondence and prop_case only",
+        "the model names a note by its nullifier, the code by (txid, output index): a wallet-owned Sapling output "
+        "re-mined at another tree position (its nullifier changes) is not generated",
+        "commitment-tree failures of scan_cached_blocks (Err ETree) and the height reached by truncate_to_height are "
+        "inputs of the model (C06); transparent coins are not modelled",
+    ]
 
     @staticmethod
     def gen():
